@@ -9,8 +9,8 @@ import gen as G
 PROP = 'C13'
 THEOREMS = ['model_eq_formula', 'frame_perm_invariant', 'sym_ge_dir', 'sym_swap', 'sim_01',
             'refine_dir_one', 'identical_is_one']
-CONFIGS = [dict(jit=True), dict(jit=False)]
-CONFIGS_THOROUGH = [dict(jit=True), dict(jit=False), dict(jit=True, threads=3)]
+CONFIGS = [dict(jit=True), dict(jit=False), dict(jit=True, threads=3)]
+CONFIGS_THOROUGH = [dict(jit=True), dict(jit=False), dict(jit=True, threads=3), dict(jit=True, threads=5), dict(jit=True, threads=2)]
 RULE = ('random pairs of labelings of the same frames (2..12 states each, arbitrary integer labels, '
         'split into trajectories differently on both sides, N from 2 to 3000; thorough also N = 1e5) '
         'and both methods, plus a malformed stream (unequal frame counts, single-state labelings, '
@@ -41,7 +41,7 @@ def gen(rng, tier):
         k1, k2 = rng.randint(2, 12), rng.randint(2, 12)
         l1, a1 = G.alphabet(rng, k=k1)
         l2, a2 = G.alphabet(rng, k=k2)
-        N = rng.choice([2, 3, 5, 8, 20, 50, 200, 1000, 3000])
+        N = rng.choice([2, 3, 5, 8, 20, 50, 200, 1000, 3000, 256, 1024, 4096, 8192, 4095, 4097])
         if tier == 'thorough' and it < 12:
             N = 100000
         style = rng.choice(['indep', 'refine', 'coarse', 'noisy', 'same'])
